@@ -24,7 +24,7 @@ from halmos.processes import (
     PopenExecutor,
     PopenFuture,
 )
-from halmos.sevm import Address, Exec, SMTQuery
+from halmos.sevm import Address, Exec, HalmosLogs, SMTQuery
 from halmos.utils import hexify
 
 EXIT_TIMEDOUT = 124
@@ -148,6 +148,9 @@ class ContractContext:
 
     # the function info for the invariant test
     probes_reported: set[FunctionInfo] = field(default_factory=set)
+
+    # logs (e.g. bounded loops) collected while computing the frontier states
+    frontier_logs: HalmosLogs = field(default_factory=HalmosLogs)
 
     # the invariant testing context for this contract
     # the empty context is used as a placeholder, it can be set later
